@@ -35,6 +35,7 @@ let run (cases : case list) =
     let exp_msgs = ref [] in        (* (read id, message) owed to reads *)
     let inq = ref [] in             (* peer frames not yet consumed by a read *)
     let active = ref None in        (* the read in flight *)
+    let chains : (string, string * int) Hashtbl.t = Hashtbl.create 7 in
     let drain () =
       let go = ref true in
       while !go do
@@ -54,6 +55,7 @@ let run (cases : case list) =
         | ["read"; id] -> Some (WaRead (z_of_string id))
         | ["write"; id; n] -> Some (WaWrite (z_of_string id, gen_list (out_byte (int_of_string id)) (int_of_string n)))
         | ["peer"; opc; h] -> Some (WaPeer (z_of_string opc, zlist_of_hex h))
+        | ["chain"; w; w2; n] -> Some (WaChain (z_of_string w, z_of_string w2, gen_list (out_byte (int_of_string w2)) (int_of_string n)))
         | ["poll"] -> Some (WaPoll (z_of_int 100000000))
         | ["frames"] -> None
         | _ -> failwith ("wsasync: bad op " ^ op)) in
@@ -83,6 +85,7 @@ let run (cases : case list) =
              Hashtbl.replace started id "write";
              exp_writes := !exp_writes @ [Printf.sprintf "2:%s" (bytes_repr (gen_list (out_byte (int_of_string id)) (int_of_string n)))]
            | ["peer"; opc; h] -> inq := !inq @ [(opc, bytes_repr (zlist_of_hex h))]
+           | ["chain"; w; w2; n] -> Hashtbl.replace chains w (w2, int_of_string n)
            | _ -> ());
           drain ();
           List.iter (fun tok ->
@@ -99,6 +102,14 @@ let run (cases : case list) =
                     | Some m -> if String.concat ":" rest <> m then fail i "3" op impl
                     | None -> fail i "3" op impl
                   end else if rest <> ["0"; "-"] then fail i "4" op impl
+                  else begin
+                    (* the callback of this write starts the next one of its chain *)
+                    match Hashtbl.find_opt chains id with
+                    | Some (id2, n) ->
+                      Hashtbl.replace started id2 "write";
+                      exp_writes := !exp_writes @ [Printf.sprintf "2:%s" (bytes_repr (gen_list (out_byte (int_of_string id2)) n))]
+                    | None -> ()
+                  end
                 end
               | [] -> ()) t;
           (* 2: the peer received whole frames; application frames in submission order, pongs in ping order, nothing repeated *)
